@@ -1442,7 +1442,17 @@ class TreeSim(WorldBase):
         except Exception as e:
             t.done = True
             return {"status": f"exc:{type(e).__name__}"}
-        t.info = {"pre": dec_point(a["prefix"]), "exp": exp, "leaf": level == sl.depth - 1, "got": []}
+        cands = [len(exp), S]
+        try:
+            sh = f.getShape(all_ranks=False)
+            if isinstance(sh, int):
+                cands.append(sh)
+            cands.append(max([c for c in f.coords if isinstance(c, int)] + [0]) + 1)
+        except Exception:
+            pass
+        # (see start_coishaperef: a finite, generous bound - the range itself is C07's business)
+        t.info = {"pre": dec_point(a["prefix"]), "exp": exp, "leaf": level == sl.depth - 1, "got": [],
+                  "bound": 3 * max(cands) + 10}
         targets.add(s)
         return {}
 
@@ -1459,9 +1469,10 @@ class TreeSim(WorldBase):
             return {"status": f"exc:{type(e).__name__}"}
         t.yields += 1
         t.info["got"].append(c)
-        if t.yields > len(t.info["exp"]) + 2:
+        if t.yields > t.info["bound"]:
             t.done = True
-            self.V("C01", "C01.wellformed", "ishaperef", "dense reference iteration does not terminate")
+            self.V("C01", "C01.wellformed", "ishaperef",
+                   f"dense reference iteration does not terminate ({t.yields} elements offered, no shape involved exceeds {(t.info['bound'] - 10) // 3})")
         if t.info["leaf"] and isinstance(p, Payload) and action.get("act") == "assign":
             p <<= action["v"]
         elif t.info["leaf"] and isinstance(p, Payload) and action.get("act") == "acc":
@@ -1506,7 +1517,20 @@ class TreeSim(WorldBase):
         except Exception as e:
             t.done = True
             return {"status": f"exc:{type(e).__name__}"}
-        t.info = {"exp": exp, "leaf": l1 == sl1.depth - 1, "got": []}
+        # "does not terminate": a dense walk covers a finite range. The range is the library's business (C07); the
+        # bound only has to be finite and generous: the largest shape anybody (the simulator's own book-keeping, the
+        # ranks of both tensors, the fibers themselves) attributes to this level, tripled.
+        cands = [len(exp), S, self.level_shape(sl2, l2)]
+        for fb in (f1, f2):
+            try:
+                sh = fb.getShape(all_ranks=False)
+                if isinstance(sh, int):
+                    cands.append(sh)
+                cands.append(max([c for c in fb.coords if isinstance(c, int)] + [0]) + 1)
+            except Exception:
+                pass
+        t.info = {"exp": exp, "leaf": l1 == sl1.depth - 1, "got": [],
+                  "bound": 3 * max(c for c in cands if isinstance(c, int)) + 10}
         targets.add(s1)
         targets.add(s2)
         return {}
@@ -1523,9 +1547,10 @@ class TreeSim(WorldBase):
             t.done = True
             return {"status": f"exc:{type(e).__name__}"}
         t.yields += 1
-        if t.yields > len(t.info["exp"]) + 2:
+        if t.yields > t.info["bound"]:
             t.done = True
-            self.V("C01", "C01.wellformed", "coishaperef", "dense co-iteration with references does not terminate")
+            self.V("C01", "C01.wellformed", "coishaperef",
+                   f"dense co-iteration with references does not terminate ({t.yields} elements offered, no shape involved exceeds {(t.info['bound'] - 10) // 3})")
         if t.info["leaf"] and action.get("act") in ("assign", "acc"):
             try:
                 p = ps[action.get("which", 0) % 2]
